@@ -11,6 +11,14 @@ class Raised(Exception):
         self.name = name
 
 
+class _Break(Exception):
+    pass
+
+
+class _Continue(Exception):
+    pass
+
+
 class _Ret(Exception):
     def __init__(self, v):
         self.v = v
@@ -39,6 +47,17 @@ def call_method(func_node, self_state, args):
     return None
 
 
+class ModelObj:
+    """abstract object with a fixed attribute table; `cls` is what type(obj) answers"""
+    def __init__(self, name, attrs=None, cls=None):
+        self.name = name
+        self.attrs = dict(attrs or {})
+        self.cls = cls
+
+    def __repr__(self):
+        return "<%s>" % self.name
+
+
 class FuncObj:
     """a function object created by a nested `def` (not executed): its node, the attributes stored on it and the
     (live) environment it closes over"""
@@ -51,13 +70,14 @@ class FuncObj:
         return "<function %s>" % self.attrs.get("__name__", self.node.name)
 
 
-def call_function(func_node, args):
-    """run a plain function (no self) on concrete arguments"""
+def call_function(func_node, args, extra=None):
+    """run a plain function (no self) on concrete arguments; extra: __calls__/__values__/__isinstance__ hooks"""
     prm = A.params(func_node)
     if len(args) != len(prm):
         raise AnalysisError("miniinterp: arity")
     env = dict(zip(prm, args))
     env["__self__"] = {}
+    env.update(extra or {})
     try:
         _block(func_node.body, env)
     except _Ret as r:
@@ -110,6 +130,22 @@ def _stmt(st, env):
     if isinstance(st, ast.If):
         _block(st.body if _ev(st.test, env) else st.orelse, env)
         return
+    if isinstance(st, ast.For):
+        for item in list(_ev(st.iter, env)):
+            _store(st.target, item, env)
+            try:
+                _block(st.body, env)
+            except _Break:
+                break
+            except _Continue:
+                continue
+        else:
+            _block(st.orelse, env)
+        return
+    if isinstance(st, ast.Break):
+        raise _Break()
+    if isinstance(st, ast.Continue):
+        raise _Continue()
     if isinstance(st, ast.Delete):
         for t in st.targets:
             if isinstance(t, ast.Subscript):
@@ -188,6 +224,14 @@ def _ev(e, env):
             if e.attr not in env["__self__"]:
                 raise AnalysisError("miniinterp: unknown field %s" % e.attr)
             return env["__self__"][e.attr]
+        d = A.dotted(e)
+        if d is not None and d in env.get("__values__", {}):
+            return env["__values__"][d]
+        base = _ev(e.value, env)
+        if isinstance(base, ModelObj):
+            if e.attr not in base.attrs:
+                raise Raised("AttributeError")
+            return base.attrs[e.attr]
         raise AnalysisError("miniinterp: unsupported attribute %s" % A.src(e))
     if isinstance(e, ast.Subscript):
         base = _ev(e.value, env)
@@ -238,6 +282,15 @@ def _ev(e, env):
         return True
     if isinstance(e, ast.IfExp):
         return _ev(e.body, env) if _ev(e.test, env) else _ev(e.orelse, env)
+    if isinstance(e, (ast.ListComp, ast.GeneratorExp)) and len(e.generators) == 1:
+        gen = e.generators[0]
+        out = []
+        for item in list(_ev(gen.iter, env)):
+            env2 = dict(env)
+            _store(gen.target, item, env2)
+            if all(_ev(c, env2) for c in gen.ifs):
+                out.append(_ev(e.elt, env2))
+        return out
     if isinstance(e, ast.Call):
         if isinstance(e.func, ast.Attribute) and e.func.attr in ("get", "pop", "setdefault", "clear"):
             base = _ev(e.func.value, env)
@@ -248,6 +301,28 @@ def _ev(e, env):
                 except KeyError:
                     raise Raised("KeyError")
         d = A.call_name(e)
+        hooks = env.get("__calls__", {})
+        if d in hooks:
+            return hooks[d](*[_ev(a, env) for a in e.args])
+        if isinstance(e.func, ast.Attribute) and e.func.attr in ("update", "items", "keys", "values", "append", "extend"):
+            base = _ev(e.func.value, env)
+            if isinstance(base, (dict, list)):
+                r = getattr(base, e.func.attr)(*[_ev(a, env) for a in e.args])
+                return list(r) if e.func.attr in ("items", "keys", "values") else r
+        if d == "reversed":
+            return list(reversed(list(_ev(e.args[0], env))))
+        if d == "type" and len(e.args) == 1:
+            v = _ev(e.args[0], env)
+            if isinstance(v, ModelObj):
+                return v.cls
+            raise AnalysisError("miniinterp: type() of a non-model value")
+        if d == "isinstance" and len(e.args) == 2 and "__isinstance__" in env:
+            return env["__isinstance__"](_ev(e.args[0], env), A.src(e.args[1]))
+        if d == "hasattr" and len(e.args) == 2:
+            v, nm = _ev(e.args[0], env), _ev(e.args[1], env)
+            if isinstance(v, ModelObj):
+                return nm in v.attrs
+            raise AnalysisError("miniinterp: hasattr() of a non-model value")
         if d in ("len", "max", "min", "list", "tuple", "str"):
             return {"len": len, "max": max, "min": min, "list": list, "tuple": tuple, "str": str}[d](*[_ev(a, env) for a in e.args])
         raise AnalysisError("miniinterp: unsupported call %s" % A.src(e))
